@@ -395,7 +395,7 @@ func (v *Verifier) VerifyFunc(c *Contract) (res *FuncResult) {
 	nextSyms[st.next] = true
 	ex.assume(True, ULt(C64(4096), st.next))
 	ex.assume(True, ULt(st.next, C64(1<<50)))
-	fr := &Frame{fn: fn, vals: map[ssa.Value]Value{}, top: true, contract: c}
+	fr := &Frame{fn: fn, vals: map[ssa.Value]Value{}, top: true, contract: c, entryNext: st.next}
 	for i, p := range fn.Params {
 		name := p.Name()
 		if name == "" || name == "_" {
